@@ -54,8 +54,10 @@ StepperResult Session::do_step(std::vector<PrimRec> prims)
     std::size_t np = prims.size();
     auto primaries = to_primaries(prims);
     rec_.begin_step(std::move(prims), after_reset_, after_reseed_);
+    rec_.cur->after_kill = after_kill_;
     after_reset_ = false;
     after_reseed_ = false;
+    after_kill_ = false;
     peak_init_ = std::max<std::uint32_t>(peak_init_, prev_end_init_ + np);
     StepperResult res;
     try
@@ -127,6 +129,11 @@ EventOutcome Session::run_event(json const& op, long budget)
             res = this->do_step(std::move(prims));
             ++local;
             ++out.steps;
+            if (op.contains("kill_at") && op["kill_at"].get<long>() == local && res)
+            {
+                // legal user action: abandon everything in flight
+                this->kill_active();
+            }
         }
         if (res || bi < nb)
             out.budget_exhausted = true;
@@ -171,6 +178,7 @@ void Session::warm_up()
 void Session::kill_active()
 {
     stepper_->kill_active();
+    after_kill_ = true;
 }
 
 }  // namespace vsim
